@@ -332,6 +332,10 @@ func runLib(w *sys.World, sc *Scenario, summary *map[string]any) {
 			if ok, _ := checkHandlerURLs(w, sc, h); !ok {
 				return
 			}
+			// so do credentials that went out in a request line
+			if checkRequestLines(w, sc, tp); w.Failed() {
+				return
+			}
 			w.Fail("c20/api-error "+step, "URL %q (%s over %s, medias %d, set-up order %v): %s failed: %v", sc.url(), sc.Variant, sc.Transport, sc.Medias, sc.SetupOrder, step, err)
 		}
 		u, err := base.ParseURL(sc.url())
@@ -381,7 +385,7 @@ func runLib(w *sys.World, sc *Scenario, summary *map[string]any) {
 				return
 			}
 			ref := func(*gortsplib.ServerSession) []*description.Media { return desc.Medias }
-			if sc.UseSetupAll {
+			if sc.setupAll() {
 				if err := c.SetupAll(d.BaseURL, d.Medias); err != nil {
 					fail("setup", err)
 					return
@@ -473,7 +477,7 @@ func runLib(w *sys.World, sc *Scenario, summary *map[string]any) {
 				return
 			}
 			ref := func(ss *gortsplib.ServerSession) []*description.Media { return ss.AnnouncedDescription().Medias }
-			if sc.UseSetupAll {
+			if sc.setupAll() {
 				if err := c.SetupAll(u, pdesc.Medias); err != nil {
 					fail("setup", err)
 					return
